@@ -26,8 +26,14 @@ ObsMatch(e, s, d) ==
 
 Known(e) == e.name \in Names[e.m]
 
+\* how a context was used: a `with` statement, or the context object applied as a DECORATOR (one object created once and
+\* shared by every thread and every -- possibly recursive -- activation of the decorated function). The model has one Enter:
+\* every activation owns its saved backend, whatever the form.
+EnterForms == {"with", "deco"}
+FormOK(e) == (e.ev = "Enter" /\ "form" \in DOMAIN e) => e.form \in EnterForms
+
 Verdict(e) ==
-    IF ~(e.t \in Threads /\ e.m \in Mgrs) THEN "Malformed"
+    IF ~(e.t \in Threads /\ e.m \in Mgrs /\ FormOK(e)) THEN "Malformed"
     ELSE IF e.ev = "Query" THEN (IF ObsMatch(e, S, disp) THEN "ok" ELSE "ObsMismatch")
     ELSE IF e.ev = "Static" THEN
         (IF ObsMatch(e, S, [disp EXCEPT ![e.m] = Get(S, e.t, e.m)]) THEN "ok" ELSE "StaticDispatchMismatch")
